@@ -39,9 +39,9 @@ type OrderSource struct {
 	byVisit   map[int]Decision
 	visit     int
 	// statistics
-	Visits     int            // visits with n >= 2
-	NonAsc     int            // of which non-canonical
-	PerSitePol map[string]int // "site.policy" -> count
+	Visits      int            // visits with n >= 2
+	NonAsc      int            // of which non-canonical
+	PerSitePol  map[string]int // "site.policy" -> count
 	Unorderable int
 }
 
@@ -140,6 +140,9 @@ func applyPolicy(idx []int, pol string, param uint64) {
 // currentOrder returns the order source that owns the calling code: the running task's
 // under the scheduler, the run's otherwise.
 func currentOrder() *OrderSource {
+	if rs := rInSim(); rs != nil {
+		return rs.curOrder()
+	}
 	if sched != nil && sched.cur != nil && sched.cur.Order != nil {
 		return sched.cur.Order
 	}
